@@ -374,6 +374,9 @@ func oracleStream(prop string, mr *muxRun, rs *reqState, cnt *[core.NumCounters]
 		if fault == "abort" || fault == "wbreak" {
 			return nil // the client left (or the connection broke) before dispatch
 		}
+		if rs.method.Shape() == "unary" && (fault == "cut" || fault == "readerr") {
+			return nil // a unary request is decoded before the handler is called: a broken body is refused there
+		}
 		if sp.Proto == "http" && sp.Compress && (fault == "cut" || fault == "readerr") && resp.Status >= 400 {
 			return nil // the gzip header itself was cut: refused before dispatch with an error
 		}
@@ -494,6 +497,9 @@ func oracleStream(prop string, mr *muxRun, rs *reqState, cnt *[core.NumCounters]
 		} else if !bytes.HasPrefix(want, got) && !bytes.HasPrefix(got, want) {
 			return fail("response-mismatch", "HttpBody response under write fault is not a prefix of what the handler sent")
 		}
+	} else if writeFault && sp.Proto == "http" && !rs.method.ServerS {
+		// an unframed single response cut short by the broken connection
+		// cannot be told from a complete one: not judged
 	} else {
 		for i, got := range cv.Msgs {
 			if i >= len(sp.Handler.Resps) {
